@@ -92,6 +92,8 @@ def _eval_requirement(body, ap, req):
             continue
         if in_fn and not any(g.fn.endswith(x) for x in in_fn):
             continue
+        if 'truth' in req and g.truth is not req['truth']:
+            continue      # (`list.contains(&bad)` says something about every element only when it came out false)
         atoms = g.all_atoms()
         if const_any is not None:
             cs = {a[1] for a in atoms if a[0] in ('c', 'a')} | set(str(c) for c in g.const_ops)
@@ -99,7 +101,7 @@ def _eval_requirement(body, ap, req):
                 continue
         missing = [s for s, r in zip(req.get('cover', []), cover) if not has(atoms, r)]
         missing += [a[1] for a in req.get('cover_raw', []) if a not in atoms]
-        if req.get('per_element') and not (g.quant or g.dom == 'loop' or (g.kind == 'call' and (g.what or '').endswith(('Iterator::any', 'Iterator::all')))):
+        if req.get('per_element') and not (g.quant or g.dom == 'loop' or (g.kind == 'call' and (g.what or '').endswith(('Iterator::any', 'Iterator::all', '<impl [T]>::contains')))):
             continue      # a list is tested by a test of each element
         if pure:
             allowed = [parse_req(body, s) for s in pure]
